@@ -37,10 +37,10 @@ class Agg:                       # struct / tuple / array / Vec (ty == 'Vec')
 
 
 class ClosureV(Agg):
-    __slots__ = ('tag',)
+    __slots__ = ('tag', 'subst')
 
-    def __init__(self, tag, fields):
-        Agg.__init__(self, fields, 'closure'); self.tag = tag
+    def __init__(self, tag, fields, subst=None):
+        Agg.__init__(self, fields, 'closure'); self.tag = tag; self.subst = subst
 
 
 class Enum:                      # disc: int | z3 BV64 ; payload {variant index: Agg}
@@ -146,10 +146,11 @@ class PyMap:
 
 
 class Iter:
-    """iterator model: items = list of already materialised values (refs or values), pos, adaptor chain"""
-    __slots__ = ('items', 'pos', 'ops', 'count')
+    """iterator model: items = list of already materialised values (refs or values), pos, adaptor chain;
+    src = (reference to a crate-defined iterator value, name of its `next`) when the base is crate code"""
+    __slots__ = ('items', 'pos', 'ops', 'count', 'src')
 
-    def __init__(self, items, pos=0, ops=(), count=0): self.items, self.pos, self.ops, self.count = items, pos, tuple(ops), count
+    def __init__(self, items, pos=0, ops=(), count=0, src=None): self.items, self.pos, self.ops, self.count, self.src = items, pos, tuple(ops), count, src
 
 
 # ----------------------------------------------------------------------------------------- integer helpers
@@ -451,11 +452,11 @@ class UseAfterFree(Exception):
 
 def copy_val(v):
     """value copy for `copy` operands / Clone of plain data (shares cells behind refs)"""
-    if isinstance(v, ClosureV): return ClosureV(v.tag, [copy_val(x) for x in v.f])
+    if isinstance(v, ClosureV): return ClosureV(v.tag, [copy_val(x) for x in v.f], v.subst)
     if isinstance(v, Agg): return Agg([copy_val(x) for x in v.f], v.ty)
     if isinstance(v, Enum): return Enum(v.ty, v.disc, {k: copy_val(p) for k, p in v.payload.items()})
     if isinstance(v, PyMap): return PyMap([(copy_val(k), copy_val(x)) for k, x in v.entries], v.ty)
-    if isinstance(v, Iter): return Iter(list(v.items), v.pos, v.ops, v.count)
+    if isinstance(v, Iter): return Iter(list(v.items), v.pos, v.ops, v.count, v.src)
     return v
 
 
@@ -477,11 +478,11 @@ class Cloner:
             return v
         if isinstance(v, tuple): return tuple(self.val(x) for x in v)
         if isinstance(v, Ref): return Ref(self.cell(v.cell), v.path, v.meta)
-        if isinstance(v, ClosureV): return ClosureV(v.tag, [self.val(x) for x in v.f])
+        if isinstance(v, ClosureV): return ClosureV(v.tag, [self.val(x) for x in v.f], v.subst)
         if isinstance(v, Agg): return Agg([self.val(x) for x in v.f], v.ty)
         if isinstance(v, Enum): return Enum(v.ty, v.disc, {k: self.val(p) for k, p in v.payload.items()})
         if isinstance(v, PyMap): return PyMap([(self.val(k), self.val(x)) for k, x in v.entries], v.ty)
-        if isinstance(v, Iter): return Iter([self.val(x) for x in v.items], v.pos, v.ops, v.count)
+        if isinstance(v, Iter): return Iter([self.val(x) for x in v.items], v.pos, v.ops, v.count, self.val(v.src))
         if isinstance(v, list): return [self.val(x) for x in v]
         if isinstance(v, dict): return {k: self.val(x) for k, x in v.items()}
         if hasattr(v, 'clone_with'): return v.clone_with(self)
